@@ -486,7 +486,7 @@ Qed.
    wire, and the one that empties the backlog issues the half-close in the same step: the peer
    sees every queued byte and only then end-of-stream.  Same for a foreign shutdown() once its
    functor runs. *)
-Theorem shutdown_flushes_then_fin : forall c, reach c ->
+Definition shutdown_flush_spec (c : conn) : Prop :=
   (st c = Connected -> outb c = [] ->
      exists c', step c Shutdown = Ok (c', [EvFin]) /\ fin c' = true /\ st c' = Disconnecting /\
        wire c' = wire c /\ outb c' = []) /\
@@ -503,8 +503,10 @@ Theorem shutdown_flushes_then_fin : forall c, reach c ->
        wire c' = wire c ++ firstn n (outb c) /\ outb c' = skipn n (outb c) /\ st c' = Disconnecting /\
        (n < length (outb c) -> fin c' = false /\ e = [] /\ writing c' = true) /\
        (n = length (outb c) -> fin c' = true /\ e = [EvFin] /\ outb c' = [] /\ writing c' = false)).
+
+Theorem shutdown_flushes_then_fin_inv : forall c, Inv c -> shutdown_flush_spec c.
 Proof.
-  intros c Hr. pose proof (reach_inv c Hr) as HI. split; [|split; [|split; [|split]]].
+  intros c HI. unfold shutdown_flush_spec. split; [|split; [|split; [|split]]].
   - intros Hs Ho. pose proof (inv_up_writing_false c HI (or_introl Hs) Ho) as Hw.
     unfold step. rewrite Hs. cbn. unfold shutdownInLoop. cbn [set_st writing]. rewrite Hw.
     eexists. split; [reflexivity|]. cbn. auto.
@@ -534,6 +536,9 @@ Proof.
       { unfold h_empty. rewrite Hhn. apply Nat.eqb_eq. rewrite skipn_length. lia. }
       unfold h_fin. rewrite He, Hs. cbn. repeat split. apply skipn_all2. lia.
 Qed.
+
+Theorem shutdown_flushes_then_fin : forall c, reach c -> shutdown_flush_spec c.
+Proof. intros c Hr. apply shutdown_flushes_then_fin_inv, reach_inv, Hr. Qed.
 
 (* ---- C03: after the half-close of a connection that is up everything taken is on the wire --- *)
 Theorem fin_all_on_wire : forall mark wc hw ops c e,
